@@ -498,13 +498,21 @@ where
 
         let qual_len = self.buf_pos.pos.1 - self.buf_pos.qual + 1;
         let seq_len = self.buf_pos.sep - self.buf_pos.seq;
-        if seq_len != qual_len {
-            self.state = State::Finished;
-            return Err(Error::UnequalLengths {
-                seq: self.buf_pos.seq(self.get_buf()).len(),
-                qual: self.buf_pos.qual(self.get_buf()).len(),
-                pos: self.get_error_pos(0, true),
-            });
+        // The raw line extents can only be compared if both lines have a
+        // terminator. The last line of the input may lack it (pos.1 == buffer
+        // length, see check_end()), then the actual lengths are compared.
+        let no_terminator = self.buf_pos.pos.1 == self.get_buf().len();
+        if seq_len != qual_len || no_terminator {
+            let seq = self.buf_pos.seq(self.get_buf()).len();
+            let qual = self.buf_pos.qual(self.get_buf()).len();
+            if !no_terminator || seq != qual {
+                self.state = State::Finished;
+                return Err(Error::UnequalLengths {
+                    seq,
+                    qual,
+                    pos: self.get_error_pos(0, true),
+                });
+            }
         }
         Ok(())
     }
